@@ -93,6 +93,11 @@ def make_objective(spec, negate=False):
     fam = spec["fam"]
     g = _VEC.get(fam) or _PERM[fam]
     a, b, c = spec["a"], spec["b"], spec["c"]
+    if spec.get("scalar"):
+        g0 = g
+
+        def g(x, c):  # noqa: F811 - the solution is a bare number
+            return g0([x], c)
     if negate:
         def f(x):
             return -(a * g(x, c) + b)
